@@ -74,8 +74,13 @@ def eval_case(case):
     p = case["password"]
     out = []
     H = HS.handler(name)
+    inadmissible = bool(settings.pop("inadmissible", False))
     try:
         Hc = H.using(**settings) if settings else H
+    except (ValueError, TypeError) as e:
+        if inadmissible:
+            return []  # a setting outside the format: refusing it is right (what is NOT right: a hash nobody can verify)
+        return [(f"C01|{name}|using_raises:{type(e).__name__}:{shape(settings)}", f"{name}.using({settings!r}) raised {e!r}")]
     except Exception as e:  # noqa: BLE001
         return [(f"C01|{name}|using_raises:{type(e).__name__}:{shape(settings)}", f"{name}.using({settings!r}) raised {e!r}")]
     L = len(HS.to_bytes(p)) if not (name == "lmhash") else len(p)
@@ -85,8 +90,14 @@ def eval_case(case):
         cls = f"{lc}:{content_class(p)}:{cls}"
     if not HS.admissible(name, p, ctx, settings):
         return []
+    if inadmissible:
+        cls = "inadmissible_setting:" + cls
     try:
         h = Hc.hash(p, **ctx)
+    except (ValueError, TypeError, NotImplementedError) as e:
+        if inadmissible:
+            return []
+        return [(f"C01|{name}|hash_raises:{type(e).__name__}:{cls}", f"{name}.using({settings!r}).hash({p!r}, **{ctx!r}) raised {e!r}")]
     except Exception as e:  # noqa: BLE001
         return [(f"C01|{name}|hash_raises:{type(e).__name__}:{cls}", f"{name}.using({settings!r}).hash({p!r}, **{ctx!r}) raised {e!r}")]
     if not isinstance(h, str):
@@ -208,8 +219,14 @@ def eval_libpass(case):
     cls = "salt" if kw else "gensalt"
     try:
         h = hz.hash(p, **kw)
+    except (ValueError, TypeError) as e:
+        if settings.get("inadmissible"):
+            return []  # a setting outside the format: refusing it is right (what is NOT right: a hash nobody can verify)
+        return [(f"C01|{name}|hash_raises:{type(e).__name__}:{cls}", f"hash({p!r}, **{kw!r}) raised {e!r}")]
     except Exception as e:  # noqa: BLE001
         return [(f"C01|{name}|hash_raises:{type(e).__name__}:{cls}", f"hash({p!r}, **{kw!r}) raised {e!r}")]
+    if settings.get("inadmissible"):
+        cls = "inadmissible_" + cls
     if not isinstance(h, str) or not h.isascii():
         return [(f"C01|{name}|hash_type:{cls}", f"hash() returned {h!r}")]
     try:
@@ -291,6 +308,8 @@ def work(task):
         ctxs = [{}]
     else:
         ctxs = HS.ctx_grid(name, quick)
+    if task.get("few"):
+        pws = [t for t in pws if t[1] in ("ascii_lower", "ascii_mixed") and t[0] in (8, 9)][:2] or pws[:2]
     core_pws = [t for t in pws if t[0] in CORE_LENGTHS]
     tail_pws = [t for t in core_pws if t[1] in ("empty", "ascii_mixed", "bytes_walk")]
     for si, settings in task["settings"]:
@@ -344,6 +363,9 @@ def libpass_settings(name, quick, seed):
             out.append({"rounds": r})
         for n in (1, 2, 8, 15, 16):
             out.append({"rounds": 1000, "salt": HS.make_salt("sha256_crypt", n, seed, n)})
+        # salts outside the format (too long, with the field separator): refused, or else whatever comes back verifies
+        for bad in ("a" * 17, "ab$cd", "$", "a" * 64, "abcdefgh$"):
+            out.append({"rounds": 1000, "salt": bad, "inadmissible": True})
     elif name.startswith("lp_pbkdf2"):
         for r in (1, 2, 3, 10):
             out.append({"rounds": r})
@@ -366,6 +388,23 @@ def run(ctx):
         per = 2 if name in HS.SLOW else 4
         for i in range(0, len(idx), per):
             tasks.append({"hasher": name, "settings": idx[i : i + per], "quick": ctx.quick, "seed": ctx.seed, "nm_full": i == 0})
+    # settings OUTSIDE the format (a salt with a foreign character -- the field separator among them -- or longer than the
+    # format takes): refused with the documented value / type error, or else the hash that comes back verifies
+    for name in HS.usable_names():
+        sc = HS.salt_alphabet(name)
+        if "salt" not in HS.g(name, "setting_kwds", ()) or not isinstance(sc, str) or name in HS.SLOW:
+            continue
+        size = HS.g(name, "default_salt_size") or HS.g(name, "max_salt_size") or 4
+        good = HS.make_salt(name, size, ctx.seed, 3)
+        bads = [good[:1] + ch + good[2:] for ch in "$:,! \n" if ch not in sc] + [ch + good[1:] for ch in "$" if ch not in sc] + [good[:-1] + "$"]
+        mx = HS.g(name, "max_salt_size")
+        if mx:
+            bads.append(HS.make_salt(name, mx + 1, ctx.seed, 4))
+        base = HS.min_cost_kw(name)
+        sts = [dict(base, salt=b, inadmissible=True) for b in dict.fromkeys(bads)]
+        tasks.append({"hasher": name, "settings": [(900 + i, st) for i, st in enumerate(sts)], "quick": ctx.quick, "seed": ctx.seed, "nm_full": False, "few": True})
+    tasks.append({"hasher": "scrypt", "settings": [(900 + i, {"ident": "$7$", "rounds": 2, "salt": sb, "inadmissible": True}) for i, sb in enumerate((b"a$b", b"$ab", b"ab$", b"a\xffb"))],
+                  "quick": ctx.quick, "seed": ctx.seed, "nm_full": False, "few": True})
     for name in LIBPASS:
         st = libpass_settings(name, ctx.quick, ctx.seed)
         for i in range(0, len(st), 3):
